@@ -340,7 +340,7 @@ Rename(s, e, new) ==
 \* ValueOK is supplied per scenario through the value universe: a value record carries the kinds it is valid for
 ValueFits(k, v, val) ==
   LET sp == Schema[k].cdata IN
-  IF KIsRef(k) THEN val.k = "p"
+  IF KIsRef(k) THEN val.k = "p" /\ \A j \in 1..Len(val.v) : val.v[j] \notin InvalidNames
   ELSE CASE sp.k = "Enum" -> val.k = "e" /\ \E i \in 1..Len(sp.items) : sp.items[i].i = val.v /\ InMask(sp.items[i].mask, v)
          [] sp.k = "UInt" -> val.k = "u"
          [] sp.k = "Float" -> val.k = "f"
@@ -747,7 +747,10 @@ Duplicate(s, m) ==
       rid == Len(s.n) + 1
       s0 == [s EXCEPT !.n = Append(@, NewNode("AUTOSAR", PM(M))), !.root = Append(@, rid), !.files = Append(@, <<>>),
                       !.idx = Append(@, {}), !.refo = Append(@, {})]
-      s1 == DupFiles(s0, M, s.files[m])
+      s1a == DupFiles(s0, M, s.files[m])
+      \* comment and attributes of the root element are transferred (when the model has files)
+      s1 == IF s.files[m] = <<>> THEN s1a
+            ELSE [s1a EXCEPT !.n[rid] = [@ EXCEPT !.cmt = s.n[s.root[m]].cmt, !.at = s.n[s.root[m]].at]]
       dc == DupCopies(s1, rid, SubIds(s1, s1.root[m])) IN
   IF ~dc.ok THEN {Fail(s, dc.err)}
   ELSE {Ok(DupFm(dc.s, Dfs(dc.s, dc.s.root[m]), Dfs(dc.s, rid), m, M), M)}
